@@ -1846,7 +1846,7 @@ def isclose(a, b, rtol=1e-05, atol=1e-08, equal_nan=False):
     aa, bb = _np.broadcast_arrays(a.a, b.a)
     r = _np.empty(aa.shape, dtype=object)
     for ix in _np.ndindex(*aa.shape):
-        r[ix] = _close_scalar(aa[ix], bb[ix], Fraction(rtol).limit_denominator(10**12), Fraction(atol).limit_denominator(10**12))
+        r[ix] = _close_scalar(aa[ix], bb[ix], Fraction(rtol).limit_denominator(10**30), Fraction(atol).limit_denominator(10**30))
     return Tensor(r, bool_)
 
 
